@@ -69,8 +69,12 @@ def answer (st : St) (id : String) (src fuel : Nat) (trace : List Nat) : String 
   -- was any candidate of a visited item dropped by the lasso cut-off?
   let cutAny := lassoCut st.g src trace s
   let pcut := pathCut st.g src trace s
-  let si := runIdeal st.g src trace (fuel / 8)
-  let iflows := (flowsOfIdeal st.g si).foldl (fun acc x => insertSorted x acc) []
+  -- the full-key traversal is only needed to attribute a miss when EntryBeforeExit fails; its key
+  -- set (tracing info is part of it) can be large, so it gets a small budget: an unfinished ideal
+  -- run is inconclusive (idealterm=0) and attributes nothing
+  let si := if ebe then ({ queue := [], seen := [], visited := [] } : Closure.State Item KeyFull)
+            else runIdeal st.g src trace (min fuel 3000)
+  let iflows := if ebe then flows else (flowsOfIdeal st.g si).foldl (fun acc x => insertSorted x acc) []
   s!"res {id} term={b01 term} ebe={b01 ebe} lassocut={b01 cutAny} pathcut={b01 pcut} visited={s.visited.length} bad={st.bad} flows={showNats flows} idealterm={b01 si.queue.isEmpty} ideal={showNats iflows}"
 
 def showItem (a : Item) : String :=
